@@ -264,10 +264,14 @@ def run_miri_big32(c, tier='quick'):
         env = dict(miri_env(c), MIRIFLAGS='-Zmiri-seed=0')
         cmd = ['cargo', '+nightly', 'miri', 'run', '--offline', '--quiet', '--features', 'failhooks', '--target', 'i686-unknown-linux-gnu', '--', 'big32-fail']
         p = subprocess.run(cmd, cwd=crate, env=env, stdout=subprocess.PIPE, stderr=subprocess.STDOUT, text=True)
-        stats['targets'].append({'target': 'i686-unknown-linux-gnu', 'scenario': 'big32-fail (allocator seam, failing table)', 'ok': p.returncode == 0})
-        if p.returncode != 0:
+        # in C03's check only what the interpreter itself reports (use after free, leak, ...) counts;
+        # the scenario's value-level complaints (error form, unchanged target) are C05's clauses
+        value_level = re.search(r'VIOLATION-DETAIL (.*)', p.stdout)
+        stats['targets'].append({'target': 'i686-unknown-linux-gnu', 'scenario': 'big32-fail (allocator seam, failing table)',
+                                 'ok': p.returncode == 0, 'value_level_complaint_left_to_C05': bool(value_level)})
+        if p.returncode != 0 and not value_level:
             detail = miri_error_summary(p.stdout)
-            m = re.search(r'VIOLATION-DETAIL (.*)', p.stdout)
+            m = None
             if m:
                 detail = m.group(1)[:400]
             os.makedirs(c.REPLAYS, exist_ok=True)
